@@ -140,6 +140,14 @@ def gen_plan(rng, tier, focus):
         rows += [{b"c": P + b"1", b"u": b"x"}, {b"c": P + b"2", b"u": b"x"}, {b"c": P + b"2", b"u": b"y"}, {b"c": P}]
     ds = dp.Dataset(new_id(), rows, "length-ladder")
     plan.append((ds, add_queries(ds, 4, gb_mode, per_value=True)))
+    # values held by exactly 4096, 8192 and 16384 rows (whole chunks of a streaming writer)
+    rows = [{b"v": (b"a" if i < 8192 else b"b"), b"w": b"%d" % (i % 2), b"q": (b"x" if i < 4096 else b"y" if i < 8192 else b"z"), b"all": b"1"} for i in range(16384)]
+    ds = dp.Dataset(new_id(), rows, "whole-chunks")
+    qs = []
+    for n, (c, v) in enumerate([(b"v", b"a"), (b"v", b"b"), (b"w", b"0"), (b"w", b"1"), (b"q", b"x"), (b"q", b"y"), (b"q", b"z"), (b"all", b"1")]):
+        for w in dp.WRITERS:
+            qs.append(dp.Query("%s.k%d%s" % (ds.did, n, w), ds, w, dp.MODES[n % 2], dp.e_eq(c, v), [], 0))
+    plan.append((ds, qs))
     # the same in-memory writer flushed twice
     for n in ([5, 1200] if tier == "quick" else [5, 999, 1200, 2500]):
         ds = dp.shaped_dataset(rng, new_id(), n, unique=(focus != "count")) if n > 5 else dp.small_dataset(rng, new_id(), hostile=False)
